@@ -43,7 +43,7 @@ func FL(rc *RC, floor int) {
 		bad := ""
 		n := 0
 		for _, st := range flatten(tree) {
-			if st.Kind != "range" {
+			if st.Kind != "range" && st.Kind != "loop" {
 				continue
 			}
 			for _, k := range flatten(st.Kids) {
@@ -63,7 +63,7 @@ func FL(rc *RC, floor int) {
 						if other == m[1] {
 							other = parts[1]
 						}
-						okForm = strings.Contains(other, "[@r") && !strings.ContainsAny(other, "&^|~!")
+						okForm = !strings.ContainsAny(other, "&^|~!")
 					}
 				}
 				if !okForm {
